@@ -661,6 +661,30 @@ def same(a, b):
         return a is b
 
 
+def _as_max_min(pred, a, b):
+    """cond(a >= b, a, b) (any of the equivalent comparisons) is max(a, b); cond(a >= b, b, a) is min(a, b)"""
+    if not isinstance(pred, Pred) or pred.kind not in ('ge0', 'gt0'):
+        return None
+    try:
+        pa, pb = lift(a), lift(b)
+    except Exception:
+        return None
+    if isinstance(a, (dict, list, tuple, Inst)) or isinstance(b, (dict, list, tuple, Inst)):
+        return None
+    d = pred.arg
+    hi_lo = None
+    for shift in ((0, 1) if pred.kind == 'ge0' else (0,)):        # integer strict comparisons carry a shift of one
+        if d + shift == pa - pb:
+            hi_lo = 'max'
+        elif d + shift == pb - pa:
+            hi_lo = 'min'
+        if hi_lo:
+            break
+    if hi_lo is None:
+        return None
+    return Sym(hi_lo, *sorted((fz(pa), fz(pb)), key=repr))
+
+
 def _canonical_polarity(pred):
     """True if `pred` (rather than its negation) is the canonical one of the pair: cond(p, a, b) and cond(not p, b, a) get the
     same term"""
@@ -680,6 +704,9 @@ def merge_cond(pred, a, b):
         return a
     if isinstance(pred, Pred) and not _canonical_polarity(pred):
         pred, a, b = pred.negate(), b, a
+    mm = _as_max_min(pred, a, b)
+    if mm is not None:
+        return mm
     if isinstance(a, Inst) and isinstance(b, Inst) and a.cls is b.cls:
         keys = list(a.fields)
         return a.replace_fields({k: merge_cond(pred, a.fields[k], b.fields.get(k)) for k in keys})
@@ -993,6 +1020,12 @@ def _jnp_all(x, **k):
     return term('all', x)
 
 
+def _jnp_stack_model(arrays, axis=0, **k):
+    if isinstance(arrays, (list, tuple)) and arrays and any(isinstance(v, (Pred, bool, np.bool_)) for v in arrays):
+        return BoolVector(arrays)
+    return _stack_sym(arrays, axis)
+
+
 class BoolVector(list):
     """array of boolean scalars (predicates / Python booleans): a list with the reductions of an array"""
 
@@ -1027,6 +1060,8 @@ def _logical_and(a, b):
 def _logical_not(a):
     if isinstance(a, (bool, np.bool_)):
         return not a
+    if isinstance(a, (list, tuple)):
+        return BoolVector([_logical_not(v) for v in a])
     return as_pred(a).negate()
 
 
@@ -1073,6 +1108,9 @@ def _op_cmp(a, b, op):
     return {'>=': _o.ge, '<=': _o.le, '>': _o.gt, '<': _o.lt, '==': _o.eq, '!=': _o.ne}[op](a, b)
 
 
+_stack_sym = symaware('stack', alg.jnp_stack)
+
+
 def _isnan(x):
     return term('isnan', x)
 
@@ -1082,6 +1120,8 @@ def _jnp_any(x, **k):
         return Sym('any_isnan', *x.args)
     if isinstance(x, Sym) and x.op == 'array' and len(x.args) == 1 and isinstance(x.args[0], tuple):
         return Sym('any', *x.args[0])
+    if isinstance(x, (list, tuple)) and x and all(isinstance(v, (Pred, bool, np.bool_)) for v in x):
+        return Pred.disj(list(x))
     if isinstance(x, (list, tuple)):
         return Sym('any', *[fz(v) for v in x])
     return term('any', x)
@@ -1142,7 +1182,11 @@ def _where(c, a=None, b=None):
 def _elementwise(name, f):
     def g(*a, **k):
         if any(_is_opaque(x) for x in a):
-            return term(name, *a)
+            # the function form of an arithmetic operator: the same value as the operator on the same operands
+            try:
+                return f(*[(lift(x) if isinstance(x, Sym) else x) for x in a])
+            except (Top, TypeError, AttributeError):
+                return term(name, *a)
         return f(*a)
     g.__name__ = name
     return g
@@ -1425,7 +1469,7 @@ _IMMATERIAL = ('dtype', 'out', 'precision', 'preferred_element_type', 'device', 
 # real keyword name -> model keyword name, per external function (kept in sync with dev/sig_audit.py)
 _API_NAMES = {
     'jnp': {
-        'array': dict(object='x'), 'asarray': dict(a='x'), 'stack': dict(arrays='items'), 'concatenate': dict(arrays='items'),
+        'array': dict(object='x'), 'asarray': dict(a='x'), 'concatenate': dict(arrays='items'),
         'hstack': dict(tup='items'), 'column_stack': dict(tup='items'), 'vstack': dict(tup='items'), 'broadcast_to': dict(array='a'),
         'sum': dict(a='x'), 'tile': dict(A='a'), 'reshape': dict(newshape='shape'),
         'diag': dict(v='a'), 'any': dict(a='x'), 'all': dict(a='x'), 'unravel_index': dict(indices='idx'),
@@ -1468,7 +1512,7 @@ def make_world_externals(world_ref):
 
     jnp = NS("jnp",
              array=_jnp_array, asarray=_jnp_array,
-             stack=symaware('stack', alg.jnp_stack), concatenate=symaware('concatenate', alg.jnp_concatenate),
+             stack=_jnp_stack_model, concatenate=symaware('concatenate', alg.jnp_concatenate),
              hstack=symaware('hstack', alg.jnp_hstack), column_stack=symaware('column_stack', alg.jnp_column_stack),
              vstack=symaware('vstack', alg.jnp_vstack),
              sum=_jnp_sum_model, mean=symaware('mean', alg.jnp_mean),
